@@ -327,7 +327,7 @@ impl Profile {
     /// visiting this Node?
     fn expected_value(&self, head: &Node) -> Utility {
         assert!(head.player() == self.walker());
-        self.profiled_reach(head)
+        self.external_reach(head)
             * head
                 .leaves()
                 .iter()
@@ -340,13 +340,16 @@ impl Profile {
     /// then what would be the expected Utility of this leaf?
     fn cfactual_value(&self, head: &Node, edge: &Edge) -> Utility {
         assert!(head.player() == self.walker());
-        self.external_reach(head)
-            * head
-                .follow(edge)
-                .expect("valid edge to follow")
+        let ref tail = head.follow(edge).expect("valid edge to follow");
+        let walker = self.walker();
+        self.external_reach(tail)
+            * tail
                 .leaves()
                 .iter()
-                .map(|leaf| self.terminal_value(head, leaf))
+                .map(|leaf| {
+                    leaf.payoff(&walker) * self.relative_reach(tail, leaf)
+                        / self.external_reach(leaf)
+                })
                 .sum::<Utility>()
     }
     /// assuming we start at a given head Node,
